@@ -181,6 +181,30 @@ class Stream(Engine):
             ctx.check(False, 'C01.roundtrip', '%s: deserialised field values differ from the original (%s)' % (kind, self._difff(bs, spec)), **det)
             return None
         ctx.check(again == enc, 'C01.roundtrip', '%s: re-serialisation of the parsed object is not byte-identical' % kind, **det)
+        # ---- a mutable transaction serialises what it holds *now*: flip its witness and look again
+        if kind == 'mtx':
+            C = self.C
+            S = conv._m()[1]
+            nin = len(spec['vin'])
+            flips = []
+            if RW.tx_has_witness(spec):
+                flips = [[[] for _ in range(nin)], None, spec['wit']]
+            else:
+                flips = [[['ab'] if j == (len(want) % nin) else [] for j in range(nin)], spec.get('wit')]
+            for w in flips:
+                s2 = dict(spec)
+                s2['wit'] = w
+                try:
+                    obj.wit = conv.wit_from_spec(w) if w is not None else C.CTxWitness()
+                    got2 = obj.serialize()
+                except Exception as e:
+                    got2 = ('raised %s' % type(e).__name__).encode()
+                ctx.carry()
+                if got2 != RW.enc_tx(s2):
+                    ctx.check(False, 'C01.bytes', 'mutable transaction re-serialised after its witness was replaced (%s) does not follow the wire format (marker/flag iff some stack is non-empty)'
+                              % ('non-empty' if RW.tx_has_witness(s2) else 'empty'), field='witness-flip', **det)
+                    return None
+            ctx.probe('mutable-witness-flip')
         # ---- fault grid 1: EOF at every offset
         n = len(enc)
         if n <= 4096 and len(fmap) <= 200:
